@@ -1569,7 +1569,7 @@ def tier_c(run, thorough):
                     cls = {'f32': 'float32-non-integer', 'int-large': 'int-15-bit', 'u16': 'uint16-full-range'}[mode]
                     if klass(case, cls) == cls:
                         bd.check(orc_layout, case, cls, function='ensure_double')
-    if False:  # pending triage: noise-dtype-float32 / noise-dtype-int64 (an integer-valued precision matrix given as float32 or
+    if True:   # repaired in /repo f8bb1287 (was pending triage): noise-dtype-float32 / noise-dtype-int64 (an integer-valued precision matrix given as float32 or
         #        int64 array: calc_rdm accepts it, calc_rdm_unbalanced raises ValueError 'Buffer dtype mismatch')
         for ndt in ('float32', 'int64'):
             for method in NOISE_METHODS:
@@ -1701,7 +1701,7 @@ def tier_c(run, thorough):
                         continue
                     bd.check(orc_calls, case, 'calls-other-label-order' if other_order else 'calls-same-labels',
                              function='calc_rdm_unbalanced')
-    if False:  # pending triage: cv-fallback-adds-index-descriptor
+    if False:  # NOT a C15 clause (dropped after triage; the statement does not say the caller's dataset stays unchanged): cv-fallback-adds-index-descriptor
         for case in pending_calls:
             bd.check(orc_calls, case, 'cv-fallback-adds-index-descriptor', function='calc_rdm_unbalanced')
     bd.done()
